@@ -5,6 +5,7 @@ import (
 	"bytes"
 	"crypto"
 	stded "crypto/ed25519"
+	cryptorand "crypto/rand"
 	"crypto/sha512"
 	"fmt"
 	"io"
@@ -289,7 +290,113 @@ func checkSign(c signCase) (h.Info, error) {
 	if !bytes.Equal(k2, std) || !bytes.Equal(ed25519.Sign(k2, msg), want) {
 		return info, fmt.Errorf("NewKeyFromSeed retained the caller's seed slice")
 	}
+	if err := spareCapacity(seed, msg, std, want); err != nil {
+		return info, err
+	}
+	if len(msg) == 0 {
+		if err := emptySpellings(priv, pub, want); err != nil {
+			return info, err
+		}
+	}
+	if err := defaultSource(seed, std); err != nil {
+		return info, err
+	}
 	return info, nil
+}
+
+// spareCapacity hands every argument over as the front part of a larger buffer whose remaining bytes
+// belong to the caller (seeds packed back to back, I_L||I_R, a message inside a frame): nothing behind
+// the argument may change, and what comes back must not live in that memory.
+func spareCapacity(seed, msg, std, want []byte) error {
+	tail := bytes.Repeat([]byte{0xc3}, 96)
+	pack := func(b []byte) []byte { return append(append(make([]byte, 0, len(b)+len(tail)), b...), tail...) }
+	intact := func(buf []byte, n int) bool { return bytes.Equal(buf[n:], tail) }
+
+	sb := pack(seed)
+	k := ed25519.NewKeyFromSeed(sb[:32])
+	if !intact(sb, 32) {
+		return fmt.Errorf("NewKeyFromSeed(seed %x passed as the first 32 bytes of a larger buffer) wrote behind the seed: the caller's following bytes are now %x", seed, sb[32:])
+	}
+	if !bytes.Equal(k, std) {
+		return fmt.Errorf("NewKeyFromSeed(seed %x passed as the first 32 bytes of a larger buffer) = %x, crypto/ed25519 %x", seed, []byte(k), std)
+	}
+	for i := range sb {
+		sb[i] = 0x3c
+	}
+	if !bytes.Equal(k, std) {
+		return fmt.Errorf("the key returned by NewKeyFromSeed(seed %x) lives in the caller's buffer: overwriting that buffer changed it to %x", seed, []byte(k))
+	}
+	pb, mb := pack(std), pack(msg)
+	sig := ed25519.Sign(ed25519.PrivateKey(pb[:64]), mb[:len(msg)])
+	if !intact(pb, 64) || !intact(mb, len(msg)) || !bytes.Equal(pb[:64], std) || !bytes.Equal(mb[:len(msg)], msg) {
+		return fmt.Errorf("Sign(seed %x, msg %x) with key and message passed as front parts of larger buffers modified the caller's memory", seed, msg)
+	}
+	if !bytes.Equal(sig, want) {
+		return fmt.Errorf("Sign(seed %x, msg %x) with key and message passed as front parts of larger buffers = %x, crypto/ed25519 %x", seed, msg, sig, want)
+	}
+	pub := ed25519.PrivateKey(pb[:64]).Public().(ed25519.PublicKey)
+	sd := ed25519.PrivateKey(pb[:64]).Seed()
+	for i := range pb {
+		pb[i] = 0x3c
+	}
+	for i := range mb {
+		mb[i] = 0x3c
+	}
+	if !bytes.Equal(sig, want) || !bytes.Equal(pub, std[32:]) || !bytes.Equal(sd, seed) {
+		return fmt.Errorf("signature / Public() / Seed() of seed %x live in the caller's key or message buffer: overwriting it changed them", seed)
+	}
+	kb, gb, vb := pack(std[32:]), pack(want), pack(msg)
+	ok := ed25519.Verify(ed25519.PublicKey(kb[:32]), vb[:len(msg)], gb[:64])
+	if !ok || !intact(kb, 32) || !intact(gb, 64) || !intact(vb, len(msg)) {
+		return fmt.Errorf("Verify(seed %x, msg %x) with arguments passed as front parts of larger buffers: verdict %v, caller memory intact: key %v sig %v msg %v", seed, msg, ok, intact(kb, 32), intact(gb, 64), intact(vb, len(msg)))
+	}
+	return nil
+}
+
+// emptySpellings: the empty message is the same message whether the caller spells it nil, []byte{} or a
+// zero-length slice of something else.
+func emptySpellings(priv ed25519.PrivateKey, pub ed25519.PublicKey, want []byte) error {
+	backing := []byte{1, 2, 3}
+	for si, m := range [][]byte{nil, {}, backing[:0], backing[3:]} {
+		if s := ed25519.Sign(priv, m); !bytes.Equal(s, want) {
+			return fmt.Errorf("Sign(empty message, spelling #%d) = %x, crypto/ed25519 %x", si, s, want)
+		}
+		for oi, opts := range []crypto.SignerOpts{crypto.Hash(0), &stded.Options{}} {
+			s, err := priv.Sign(nil, m, opts)
+			if err != nil || !bytes.Equal(s, want) {
+				return fmt.Errorf("PrivateKey.Sign(nil, empty message spelled #%d (nil, []byte{}, b[:0], b[len:]), options #%d) = %x, %v; crypto/ed25519 gives %x", si, oi, s, err, want)
+			}
+		}
+		if !ed25519.Verify(pub, m, want) {
+			return fmt.Errorf("Verify rejects the signature of the empty message when it is spelled #%d (nil, []byte{}, b[:0], b[len:])", si)
+		}
+	}
+	return nil
+}
+
+// defaultSource: GenerateKey(nil) reads crypto/rand.Reader as it is at the time of the call, like
+// crypto/ed25519; a program (or test) that installed its own Reader gets keys from it.
+func defaultSource(seed, std []byte) error {
+	stream := append(append([]byte{}, seed...), bytes.Repeat([]byte{0x42}, 64)...)
+	old := cryptorand.Reader
+	defer func() { cryptorand.Reader = old }()
+	s1 := bytes.NewReader(stream)
+	cryptorand.Reader = s1
+	_, wpriv, werr := stded.GenerateKey(nil)
+	s2 := bytes.NewReader(stream)
+	cryptorand.Reader = s2
+	gpub, gpriv, gerr := ed25519.GenerateKey(nil)
+	cryptorand.Reader = old
+	if werr != nil || !bytes.Equal(wpriv, std) {
+		return nil // this toolchain's crypto/ed25519 does not draw the seed from a replaced Reader: nothing to compare with
+	}
+	if gerr != nil || !bytes.Equal(gpriv, std) || !bytes.Equal(gpub, std[32:]) {
+		return fmt.Errorf("GenerateKey(nil) while crypto/rand.Reader delivers %x: got %x, %x, %v; crypto/ed25519.GenerateKey(nil) gives the key of that seed (%x)", seed, []byte(gpub), []byte(gpriv), gerr, std)
+	}
+	if s1.Len() != s2.Len() {
+		return fmt.Errorf("GenerateKey(nil) consumed %d bytes of crypto/rand.Reader, crypto/ed25519 consumes %d", len(stream)-s2.Len(), len(stream)-s1.Len())
+	}
+	return nil
 }
 
 func genSign(t *rapid.T) signCase {
